@@ -25,6 +25,22 @@ Print Assumptions C18_strings_are_the_sources.
 (* why the flag matters: with the key updated only after a lookup, [a; resolver; a] sends the second a to the resolver *)
 Check stale_cache_misroutes.
 
+(* forwarding: the bridge reads the client's requests and the service's replies message by message through buffered
+   readers; where each reader is constructed is regenerated from proxy.rs. One reader per loop delivers every message of
+   the stream whatever the segmentation into reads (a reader per message would lose what a read brought beyond the
+   message: Reader.fresh_reader_loses_a_reply) *)
+From VL Require Import Reader.
+Theorem C18_bridge_forwards_every_message : forall chunks,
+  forward service_reader_scope chunks = messages (concat chunks) /\
+  forward client_reader_scope chunks = messages (concat chunks).
+Proof. intros chunks. split; exact (per_loop_forwards_everything chunks). Qed.
+Print Assumptions C18_bridge_forwards_every_message.
+
+Theorem C18_forwarding_independent_of_segmentation : forall a b, concat a = concat b ->
+  forward service_reader_scope a = forward service_reader_scope b.
+Proof. intros a b H. exact (single_reader_segmentation_independent a b H). Qed.
+Print Assumptions C18_forwarding_independent_of_segmentation.
+
 (* tie: the functions this property's model describes by hand (not by translation) still have the pinned text; an
    edit to one of them breaks this obligation and sends the check searching for a failing input *)
 From VLG Require Import ShapeGen.
